@@ -1618,10 +1618,7 @@ func loopInvariant(other ssa.Value, ph *ssa.Phi) bool {
 	case *ssa.UnOp:
 		return false
 	case ssa.Instruction:
-		if call, ok := v.(*ssa.Call); ok {
-			if callName(&call.Call) != "builtin.len" {
-				return false
-			}
+		if call, ok := v.(*ssa.Call); ok && callName(&call.Call) == "builtin.len" {
 			return loopInvariant(call.Call.Args[0], ph)
 		}
 		b := x.Block()
